@@ -189,6 +189,9 @@ impl AllocationQueue {
 
     pub fn resume(&mut self) {
         self.state = AllocationQueueState::Active;
+        // Otherwise a queue paused because of too many failures would be paused again
+        // right away by the next scheduling tick
+        self.rate_limiter.reset_fails();
     }
 
     pub fn manager(&self) -> &ManagerType {
@@ -499,6 +502,13 @@ impl RateLimiter {
     pub fn on_allocation_fail(&mut self) {
         self.allocation_fails += 1;
         self.increase_delay();
+    }
+
+    /// The queue was resumed, start counting failures from zero again.
+    /// The current delay is kept.
+    pub fn reset_fails(&mut self) {
+        self.submission_fails = 0;
+        self.allocation_fails = 0;
     }
 
     /// Submission will be attempted, reset the limiter timer.
